@@ -655,3 +655,35 @@ pub fn enum_leaf_sentinels(root: &P, schema: &Schema) -> Vec<(String, Value)> {
     walk(root, &mut Vec::new(), &base, schema, &mut out);
     out
 }
+
+/// (path, __typename) of every abstract position of the payload that carries `__typename`.
+pub fn abstract_tags(root: &P) -> Vec<(Vec<PathSeg>, String)> {
+    let mut out = Vec::new();
+    fn walk(p: &P, path: &mut Vec<PathSeg>, out: &mut Vec<(Vec<PathSeg>, String)>) {
+        match &p.kind {
+            PKind::Null | PKind::Leaf(..) => {}
+            PKind::List(items) => {
+                for (i, it) in items.iter().enumerate() {
+                    path.push(PathSeg::Idx(i));
+                    walk(it, path, out);
+                    path.pop();
+                }
+            }
+            PKind::Object { abstract_pos, typename, fields, .. } => {
+                if *abstract_pos && fields.iter().any(|f| f.is_typename) && !path.is_empty() {
+                    out.push((path.clone(), typename.clone()));
+                }
+                for f in fields {
+                    if f.is_typename {
+                        continue;
+                    }
+                    path.push(PathSeg::Key(f.key.clone()));
+                    walk(&f.p, path, out);
+                    path.pop();
+                }
+            }
+        }
+    }
+    walk(root, &mut Vec::new(), &mut out);
+    out
+}
